@@ -16,24 +16,45 @@ RULE = ("chspline: N in 2..60 points of dim 1..6, batch ranks 0..2, float32/64, 
         "number of multiples of the double interval in [0,1) (rational arithmetic); data = straight lines p0+i*d "
         "(integer-exact or generic, magnitudes 1e-3..1e3) or random points: shape (N-1)k+1, out[i*k]==points[i] "
         "(8 eps*max|points|), lines reproduced at all sample times i+j*h (16 eps*max|points|); side claim from the mechanism "
-        "named in the property's anchors (symmetric finite-difference tangents): with a dyadic interval the curve through "
-        "the reversed sequence is the reversed curve (32 eps*max|points|).  bspline: N in 1..60 SE3 "
-        "poses (N>=4 without extrapolate), batch ranks 0..2, float64/32; modes constant twist T0 o Exp(i xi) "
-        "(|phi|<=3), random walk, independent random poses: counts (N-3)k+1 / (N+1)k+1 (the docstring pads two copies "
-        "at each end), constant twist => sample (s,j) = T0 o Exp((s+1+j*h) xi) as matrices, bspline(G o X) == G o bspline(X) as "
+        "named in the property's anchors ('Hermite basis with finite-difference tangents', i.e. the symmetric three-point "
+        "difference of the cited Cubic-Hermite-spline article; the docstring itself only says 'matching values and first "
+        "derivatives'): with a dyadic interval the curve through "
+        "the reversed sequence is the reversed curve (32 eps*max|points|).  bspline: N in 4..60 SE3 poses (the stated "
+        "domain, with and without extrapolate), batch ranks 0..2, float64/32, intervals down to 1/24 (quick: one case in "
+        "eight down to 1/70; thorough 1/70, one in eight 1/130); modes constant twist T0 o Exp(i xi) "
+        "(|phi|<=3), random walk, independent random poses: count (N-3)k+1 without extrapolate (four consecutive poses per "
+        "unit interval); with extrapolate only the documented structure m*k+1, m>=1 (how far the ends are extended is not "
+        "documented; p copies of the end poses give m = N+2p-3, label extrap_layout:pad<p>); "
+        "constant twist => sample (s,j) = T0 o Exp((s+1+j*h) xi) as matrices, also on the unit intervals of the "
+        "extrapolated spline whose four control poses are original ones; bspline(G o X) == G o bspline(X) as "
         "matrices (skipped when a consecutive relative rotation is within 1e-3 of pi), extrapolate => first/last sample == "
         "first/last pose; rotation blocks to 64 eps (x max(1,N|phi|)/min(1,pi-|phi|) for the twist check, 256 eps/(pi-theta_max) "
-        "for equivariance), translation blocks to 256 eps*scale + 64 sqrt(eps)*dmax (dmax = largest distance between "
-        "consecutive input positions; the sqrt(eps) term is the translation accuracy of Exp/Log granted by property C01: "
-        "pypose's se3 Exp is off by ~theta*|tau| for 1e-9 < theta < 1e-6); continuity at interval 1/64: jump over a "
-        "segment boundary <= 2x the "
-        "largest within-segment jump (+64 eps*scale + 8 sqrt(eps)*dmax).  metrics: float64 unit-quaternion trajectories of 3..200 poses "
-        "(random walk), reference or estimate subsampled, timestamps t0+i*dt with |jitter| < 0.24*diff, diff <= dt/4, "
-        "optional time offset; ape/rpe x 5 etypes x {align, scale, origin} x pairing {frame, distance} x all x rpair x "
+        "for equivariance), translation blocks to 256 eps*scale + 6 max_j N(theta_j)|tau_j| (+ 32 eps64 N|tau| for the float64 "
+        "expectation of the twist check), N(theta) = min(theta, 2 eps/theta) <= sqrt(2 eps): the translation accuracy of "
+        "Exp granted by property C01 resolved in the angle ((1-cos theta)/theta^2 in closed form; pypose's se3 Exp is off by "
+        "~theta*|tau| for 1e-9 < theta < 1e-6 in float64), |tau_j| <= (theta_j/2)/sin(theta_j/2) * distance of control positions j, "
+        "j+1; continuity at interval 1/64: (a) the largest step over a segment boundary <= 2x the largest within-segment "
+        "step (+64 eps*scale + 8 sqrt(eps)*dmax), (b) at every boundary, rotation and translation separately: the first "
+        "sample of the next segment minus the cubic extrapolation of the last three samples of the segment (a third "
+        "difference) <= h^3 K + rounding, K = bound on the third derivative of the segment formula from its own three "
+        "twists (Leibniz rule on the docstring's cumulative basis; h^3 K is 0.04 %..10 % of one step).  metrics: float64 "
+        "unit-quaternion trajectories of 3..200 poses "
+        "(random walk), reference or estimate or both subsampled (both: stamps without a partner, which the threshold must "
+        "reject), timestamps t0+i*dt with |jitter| < jit*diff, jit in {0.24, 0.6, 0.95}, diff <= dt/4, "
+        "optional time offset; the brute-force association over all stamp pairs (|t_ref-(t_est+offset)| < diff) must be the "
+        "constructed one and every decision >= 64 ulp of the stamps from the threshold (else discarded); "
+        "ape/rpe x 5 etypes x {align, scale, origin} x pairing {frame, distance} x all x rpair x "
         "delta x otype; identical trajectories => every statistic <= 1e-12*scale; rpe(G o ref, est) == rpe(ref, est) == "
-        "rpe(ref, G o est); ape(ref, S o est, align[,scale]) == ape(ref, est, same flags) for rigid / similarity S "
-        "(per-error tolerance 1e-9*scale + rtol 1e-8, propagated to SSE/STD); Max>=RMSE>=Mean>=Min>=0; inputs not "
-        "mutated.  Distance pairings are only used when every discrete decision is >= 1e-6*scale away from a tie and the "
+        "rpe(ref, G o est); ape(ref, S o est, align[,scale]) == ape(ref, est, same flags) for rigid / similarity S; every "
+        "returned statistic == the documented statistic of the documented errors over the brute-force pair set (Umeyama / "
+        "first-pose alignment, documented pairing; accepted readings: spectral or Frobenius matrix norm, rpe translation "
+        "as |trans(Tr^-1 Te)| or as the docstring writes it, Median anywhere between the two middle samples, STD with n "
+        "or n-1); a single-otype result == the entry of otype='All' (1e-12 relative) "
+        "(per-error tolerance 1e-9*scale + rtol 1e-8, propagated to SSE/STD); Max>=RMSE>=Mean>=Min>=0 on every full "
+        "output (requested for every case); inputs not "
+        "mutated.  Distance pairings are only used when every discrete decision is >= 1e-6*scale away from a tie (when no "
+        "step length gives two such pairs - mostly 3 associated poses - the case is run and counted with frame pairing, "
+        "label distance->frame) and the "
         "Umeyama rotation is well determined ((d2 +- d3)/d1 >= 0.02).  geodesic: all 8x8 ltype pairs, float32/64, batch "
         "shapes, function and module, reductions; value == atan2-angle of R_x R_y^T from float64 reference matrices "
         "(32 eps (1+|phi_x|+|phi_y|)), in [0, pi], symmetric, mean/sum consistent with 'none'.  Non-trivial: chspline "
@@ -44,8 +65,11 @@ ASSUMPTIONS = ["interval not within 1e-6 below a reciprocal 1/m (the sample coun
                "bspline constant-twist: rotation per step |phi| <= 3 < pi (Log must return the generating twist)",
                "bspline equivariance asserted only when all consecutive relative rotations stay 1e-3 away from pi "
                "(the spline is a discontinuous function of the data at the cut locus of Log)",
+               "bspline: >= 4 control poses also with extrapolate=True (the library accepts fewer there; outside the stated domain)",
                "metrics: float64 poses with unit quaternions, >= 3 associated poses, >= 2 error samples, nposes left at "
                "its default, alignment well determined (non-collinear positions), distance pairing not at a tie",
+               "metrics: |jitter| <= 0.95 diff and diff <= dt/4, so that 'nearest stamp' and 'any stamp within diff' select the "
+               "same pairs and stamps without a partner are a whole frame away",
                "geodesic: both arguments have the same batch shape; |phi| <= 4 pi + 1 for algebra arguments"]
 
 EPS64 = tu.EPS["float64"]
@@ -238,15 +262,6 @@ def _build_poses(case, rs):
     return data, (twists if mode == "twist" else None), T0s
 
 
-def _theta_max(M):
-    """largest rotation angle between consecutive poses; M: (nb, N, 4, 4)"""
-    th = 0.0
-    for b in range(M.shape[0]):
-        for i in range(M.shape[1] - 1):
-            th = max(th, R.rot_angle(M[b, i, :3, :3].T @ M[b, i + 1, :3, :3]))
-    return th
-
-
 class BSpline(Sub):
     name = "bspline"
     n = {"quick": 2400, "thorough": 40000}
@@ -254,12 +269,16 @@ class BSpline(Sub):
     def strategy(self, tier):
         @st.composite
         def s(draw):
-            N = draw(st.one_of(st.integers(1, 8), st.integers(4, 24), st.integers(1, 60)))
+            # the property quantifies bspline over >= 4 control poses (with or without extrapolate)
+            N = draw(st.one_of(st.integers(4, 8), st.integers(4, 24), st.integers(4, 60)))
             batch = draw(gen.lshape(2, (1, 2, 3), 4))
             if N > 24 and batch:
                 batch = batch[:1]
+            # intervals down to 1/70 (quick: one case in eight) / 1/130 (thorough: one in eight); the rest stays
+            # coarse because the cost of a case is proportional to the number of samples
+            mmax = draw(st.sampled_from((24,) * 7 + (70,) if tier == "quick" else (70,) * 7 + (130,)))
             return {"N": N, "batch": batch, "dtype": draw(st.sampled_from(("float64", "float64", "float32"))),
-                    "interval": draw(interval_st(mmax=24 if tier == "quick" else 70)),
+                    "interval": draw(interval_st(mmax=mmax)),
                     "mode": draw(st.sampled_from(("twist", "twist", "walk", "walk", "free"))),
                     "et": draw(st.integers(-2, 2)), "etau": draw(st.integers(-2, 1)),
                     "ang": draw(st.one_of(st.floats(0.0, 3.0), st.sampled_from((0.0, 1e-9, 1e-4, 3.0)))),
@@ -268,7 +287,7 @@ class BSpline(Sub):
         return s()
 
     def valid(self, case):
-        return interval_ok(case["interval"]["h"]) and case["N"] >= 1 and 0.0 <= case["ang"] <= 3.0
+        return interval_ok(case["interval"]["h"]) and case["N"] >= 4 and 0.0 <= case["ang"] <= 3.0
 
     def oracle(self, case, rec):
         N, batch, dtype, mode = case["N"], list(case["batch"]), case["dtype"], case["mode"]
@@ -287,9 +306,10 @@ class BSpline(Sub):
         Xn = tu.npy(X).reshape(nb, N, 7)             # what is actually passed
         MX = T.mats_v(Xn)
         MG = R.mat4("SE3", tu.npy(Gt))
-        thmax = _theta_max(MX)
-        rec.label(mode, dtype, case["interval"]["kind"], "rank%d" % len(batch),
-                  "N<4" if N < 4 else ("N>=5" if N >= 5 else "N=4"))
+        th_rel, d_rel = T.rel_geometry(MX)           # (nb, N-1): angle / distance between consecutive control poses
+        thmax = float(th_rel.max())
+        rec.label(mode, dtype, case["interval"]["kind"], "rank%d" % len(batch), "N>=5" if N >= 5 else "N=4",
+                  "h<1/24" if h < 1.0 / 24 else "h>=1/24")
         if N >= 5 and not case["Gid"]:
             rec.nt(("bs", mode, N, k, tuple(batch), dtype, T.is_dyadic(h)))
         tsc = max(1.0, float(np.abs(MX).max()), float(np.abs(MG).max()))
@@ -305,18 +325,37 @@ class BSpline(Sub):
         def as_mats(o, cnt):
             return T.mats_v(tu.npy(o).reshape(nb, cnt, 7))
 
+        def layout(cnt, kk):
+            """(number of segments, copies p of the end poses) of an extrapolated output with cnt samples, or None.
+            The docstring fixes kk samples per unit interval plus the final pose but not how the ends are extended;
+            p copies at each end give N + 2p - 3 segments (the implementation uses p = 2)."""
+            if cnt < kk + 1 or (cnt - 1) % kk:
+                return None
+            nseg = (cnt - 1) // kk
+            p2 = nseg - (N - 3)
+            return (nseg, p2 // 2) if (p2 >= 0 and p2 % 2 == 0) else (nseg, None)
+
         outs = {}
         for extr in (False, True):
-            if not extr and N < 4:
-                continue
             o = run(X, h, extr, "bspline(extrapolate=%s)" % extr)
             if o is None:
                 return
-            cnt = ((N + 1) if extr else (N - 3)) * k + 1
-            want = tuple(batch) + (cnt, 7)
-            if not rec.check(tuple(o.shape) == want, "bspline:count:extrapolate=%s" % extr,
-                             "N=%d interval=%r (k=%d) extrapolate=%s: shape %s, expected %s"
-                             % (N, h, k, extr, tuple(o.shape), want)):
+            if not extr:        # four consecutive poses per unit interval (docstring): N-3 intervals of k samples + the end
+                cnt = (N - 3) * k + 1
+                want = tuple(batch) + (cnt, 7)
+                ok = rec.check(tuple(o.shape) == want, "bspline:count:extrapolate=False",
+                               "N=%d interval=%r (k=%d) extrapolate=False: shape %s, expected %s"
+                               % (N, h, k, tuple(o.shape), want))
+            else:               # only the structure is documented: whole unit intervals of k samples + the end pose
+                cnt = int(o.shape[-2]) if o.dim() >= 2 else -1
+                lay = layout(cnt, k)
+                ok = rec.check(tuple(o.shape) == tuple(batch) + (cnt, 7) and lay is not None,
+                               "bspline:count:extrapolate=True",
+                               "N=%d interval=%r (k=%d) extrapolate=True: shape %s is not batch + (m*k+1, 7) with m >= 1"
+                               % (N, h, k, tuple(o.shape)))
+                if ok:
+                    rec.label("extrap_layout:" + ("pad%d" % lay[1] if lay[1] is not None else "other"))
+            if not ok:
                 return
             M = as_mats(o, cnt)
             if not rec.check(bool(np.all(np.isfinite(M))), "bspline:nonfinite", "non-finite output"):
@@ -324,23 +363,29 @@ class BSpline(Sub):
             outs[extr] = (o, M, cnt)
         rec.check(torch.equal(X.tensor(), X0), "bspline:mutates_input", "bspline changed its input")
 
-        # tolerances: rotation blocks at eps level; translation blocks inherit the accuracy of Exp / Log on the
-        # relative poses (property C01: sqrt(eps) relative to the translation of each factor, which is bounded by
-        # the distance dmax between consecutive input positions)
-        dmax = float(np.linalg.norm(MX[:, 1:, :3, 3] - MX[:, :-1, :3, 3], axis=-1).max()) if N > 1 else 0.0
-        tr_tol = 256 * eps * tsc + 64 * math.sqrt(eps) * dmax
+        # tolerances: rotation blocks at eps level.  Translation blocks: eps * scale for the products, plus the
+        # accuracy of Exp on the (scaled) relative twists - property C01 grants sqrt(eps) |tau|; resolved in the
+        # rotation angle (T.exp_translation_noise: min(theta, 2 eps/theta) |tau|, at most sqrt(2 eps) |tau|) so that the
+        # bound is eps-sized for ordinary angles and a sample that sits one interval too early or late is not absorbed.
+        # Every sample is a product of three such factors (weights <= 1) of the three twists of its segment; |tau| <=
+        # (theta/2)/sin(theta/2) * distance of the two control positions.  Factor 2 for the Log that produced the twist.
+        tau_rel = T.twist_norm_bound(th_rel, d_rel)
+        exp_noise = T.exp_translation_noise(th_rel, eps) * tau_rel          # (nb, N-1)
+        dmax = float(d_rel.max())
+        tr_tol = 256 * eps * tsc + 6 * float(exp_noise.max())
 
-        def pose_err(A, B, rot_tol, tscale=1.0):
+        def pose_err(A, B, rot_tol, tscale=1.0, textra=0.0):
             """worst (error / tolerance) over rotation and translation blocks, and its location"""
             A, B = A.reshape(-1, 4, 4), B.reshape(-1, 4, 4)
             er = np.abs(A[:, :3, :3] - B[:, :3, :3]).reshape(len(A), 9).max(1) / rot_tol
-            et = np.abs(A[:, :3, 3] - B[:, :3, 3]).max(1) / (tr_tol * tscale)
+            et = np.abs(A[:, :3, 3] - B[:, :3, 3]).max(1) / (tr_tol * tscale + textra)
             e = np.maximum(er, et)
             i = int(e.argmax())
+            _note(rec, "translation_err/tol:" + dtype, float(et.max()))
             return float(e[i]), i, ("rotation" if er[i] >= et[i] else "translation")
 
         # --- extrapolate: passes through the first and the last pose ---------------------------
-        _, Me, _ = outs[True]
+        _, Me, cnte = outs[True]
         r, i, blk = pose_err(Me[:, [0, -1]], MX[:, [0, -1]], 64 * eps)
         _note(rec, "extrap/tol:" + dtype, r)
         rec.check(r <= 1.0, "bspline:extrapolate_ends:" + dtype,
@@ -348,19 +393,34 @@ class BSpline(Sub):
                   % (N, h, "last" if i % 2 else "first", blk, r))
 
         # --- constant twist: right pose at the right time ------------------------------------------
-        if mode == "twist" and N >= 4:
+        if mode == "twist":
             _, M, cnt = outs[False]
             tt = np.array([(s + 1 + j * h) for s in range(N - 3) for j in range(k)] + [float(N - 2)])
             E = np.stack([MX[b, 0] @ T.exp_se3_line(tt, twists[b]) for b in range(nb)], 0)
             rot_tol = 64 * eps * max(1.0, N * case["ang"]) / min(1.0, math.pi - case["ang"])
-            r, i, blk = pose_err(M, E, rot_tol)
+            # float64 expectation and float64 construction of the control poses: the angle a = t*theta of Exp(t xi) is
+            # rounded (<= 2 eps a) and |dp/da| <= 2 |tau|/theta, i.e. 4 eps t |tau| on either side (the counterpart of the
+            # factor N*ang in the rotation tolerance)
+            ref_acc = 32 * EPS64 * N * float(tau_rel.max())
+            r, i, blk = pose_err(M, E, rot_tol, textra=ref_acc)
             _note(rec, "twist/tol:" + dtype, r)
             rec.check(r <= 1.0, "bspline:const_twist:" + dtype,
                       lambda: "N=%d interval=%r: sample %d (time %.6g) deviates from T0 Exp(t xi) in its %s block "
                       "(error/tolerance %.3g)" % (N, h, i % cnt, float(tt[i % cnt]), blk, r))
+            # the same motion inside the extrapolated spline: the unit intervals whose four control poses are all
+            # original ones (p copies of the end poses: segments p .. N+p-4, first sample of segment N+p-3) carry the
+            # times 1 .. N-2 as above
+            p = layout(cnte, k)[1]
+            if p is not None and (N + p - 3) * k < cnte:
+                r, i, blk = pose_err(Me[:, p * k:(N + p - 3) * k + 1], E, rot_tol, textra=ref_acc)
+                _note(rec, "twist_extrap/tol:" + dtype, r)
+                rec.label("twist_on_extrapolated")
+                rec.check(r <= 1.0, "bspline:const_twist_extrapolated:" + dtype,
+                          lambda: "N=%d interval=%r extrapolate=True: sample %d (time %.6g) deviates from T0 Exp(t xi) in "
+                          "its %s block (error/tolerance %.3g)" % (N, h, p * k + i % cnt, float(tt[i % cnt]), blk, r))
 
         # --- left equivariance ---------------------------------------------------------------------
-        extr = (N < 4) or bool(case["seed"] & 1)
+        extr = bool(case["seed"] & 1)
         _, M, cnt = outs[extr]
         if math.pi - thmax < 1e-3:
             rec.label("equiv_skipped_cut")
@@ -381,30 +441,80 @@ class BSpline(Sub):
                           "error/tolerance %.3g)" % (N, h, extr, i % cnt, blk, r))
 
         # --- continuity across segment boundaries (interval 1/64) -----------------------------------
-        extr = (N < 4) or bool(case["seed"] & 2)
+        extr = (N == 4) or bool(case["seed"] & 2)          # four poses without extrapolation are a single segment
         oc = run(X, 1.0 / 64, extr, "bspline(1/64)")
         if oc is None:
             return
-        nseg = (N + 1) if extr else (N - 3)
-        if not rec.check(oc.shape[-2] == nseg * 64 + 1, "bspline:count:1/64", "interval 1/64: %d samples" % oc.shape[-2]):
+        cntc = int(oc.shape[-2])
+        if extr:
+            lay = layout(cntc, 64)
+            if not rec.check(lay is not None, "bspline:count:1/64", "interval 1/64, extrapolate=True: %d samples" % cntc):
+                return
+            nseg, p = lay
+        else:
+            nseg, p = N - 3, 0
+            if not rec.check(cntc == nseg * 64 + 1, "bspline:count:1/64", "interval 1/64: %d samples" % cntc):
+                return
+        Mc = as_mats(oc, cntc)
+        if nseg < 2:
             return
-        Mc = as_mats(oc, nseg * 64 + 1)
+        # (a) global: no step over a segment boundary exceeds twice the largest step inside a segment
         jumps = np.abs(Mc[:, 1:] - Mc[:, :-1]).reshape(nb, nseg * 64, 16).max(-1)
         idx = np.arange(nseg * 64)
         bnd = (idx % 64 == 63) & (idx < nseg * 64 - 1)     # last sample of a segment -> first of the next
-        if bnd.any():
-            for b in range(nb):
-                jb, jw = float(jumps[b, bnd].max()), float(jumps[b, ~bnd].max())
-                lim = 2 * jw + 64 * eps * tsc + 8 * math.sqrt(eps) * dmax
-                _note(rec, "boundary_jump/limit(=2x within)", jb / lim if lim > 0 else 0.0)
-                if not rec.check(jb <= lim, "bspline:continuity:" + dtype,
-                                 "N=%d extrapolate=%s: jump %.3g across a segment boundary, largest within-segment jump %.3g"
-                                 % (N, extr, jb, jw)):
-                    break
+        for b in range(nb):
+            jb, jw = float(jumps[b, bnd].max()), float(jumps[b, ~bnd].max())
+            lim = 2 * jw + 64 * eps * tsc + 8 * math.sqrt(eps) * dmax
+            _note(rec, "boundary_jump/limit(=2x within)", jb / lim if lim > 0 else 0.0)
+            if not rec.check(jb <= lim, "bspline:continuity:" + dtype,
+                             "N=%d extrapolate=%s: jump %.3g across a segment boundary, largest within-segment jump %.3g"
+                             % (N, extr, jb, jw)):
+                break
+        # (b) local, rotation and translation separately: continuity at the boundary means that the first sample x2 of
+        # segment s+1 is the value at u = 1 of the smooth formula of segment s, whose last three samples are x_-1, x0,
+        # x1 (u = 61/64, 62/64, 63/64); a third difference of a C^3 function f is bounded by h^3 max|f(3)|:
+        #     | x2 - 3 x1 + 3 x0 - x_-1 |  <=  h^3 K(segment s)  + rounding of the four samples
+        # with K from the twists of that segment alone (T.bspline_third_derivative_bounds); h^3 K is 0.04 % .. 10 % of one
+        # step, so a break of a fraction of a step at one boundary is visible whatever happens elsewhere on the curve
+        # and however large the positions are.
+        if p is None:
+            rec.label("continuity_local_skipped:layout")
+            return
+        z = np.zeros((nb, p))
+        thp = np.concatenate([z, th_rel, z], 1)               # twists of the extended pose sequence: (nb, nseg + 2)
+        taup = np.concatenate([z, tau_rel, z], 1)
+        noip = np.concatenate([z, exp_noise, z], 1)
+        win = lambda a: np.maximum(np.maximum(a[:, :-2], a[:, 1:-1]), a[:, 2:])[:, :nseg - 1]   # twists s, s+1, s+2
+        k_rot, k_tr = T.bspline_third_derivative_bounds(win(thp), win(taup))
+        bi = 64 * np.arange(1, nseg)
+        D3 = Mc[:, bi] - 3.0 * Mc[:, bi - 1] + 3.0 * Mc[:, bi - 2] - Mc[:, bi - 3]            # (nb, nseg-1, 4, 4)
+        d3r = np.linalg.norm(D3[..., :3, :3], ord=2, axis=(-2, -1))
+        d3t = np.linalg.norm(D3[..., :3, 3], axis=-1)
+        h3 = 64.0 ** -3
+        # rounding: 8 = |1|+|3|+|3|+|1| times the per-sample error (32 eps rotation; 32 eps*scale + the three Exp
+        # factors for the translation), plus Exp(Log(T_s^-1 T_s+1)) != T_s^-1 T_s+1 at the boundary itself
+        lim_r = h3 * k_rot + 256 * eps
+        lim_t = h3 * k_tr + 256 * eps * tsc + 25 * win(noip)
+        rr, rt = d3r / lim_r, d3t / lim_t
+        _note(rec, "c0_rotation/limit:" + dtype, float(rr.max()))
+        _note(rec, "c0_translation/limit:" + dtype, float(rt.max()))
+        rec.label("continuity_local")
+        if rr.max() > 1.0:
+            b, s_ = np.unravel_index(int(rr.argmax()), rr.shape)
+            rec.fail("bspline:continuity_rotation:" + dtype,
+                     "N=%d extrapolate=%s: at the boundary of segments %d|%d the rotation of the first sample of the next "
+                     "segment is %.3g away from the cubic extrapolation of the last three samples (limit %.3g: h^3 K = %.3g)"
+                     % (N, extr, s_, s_ + 1, d3r[b, s_], lim_r[b, s_], h3 * k_rot[b, s_]))
+        if rt.max() > 1.0:
+            b, s_ = np.unravel_index(int(rt.argmax()), rt.shape)
+            rec.fail("bspline:continuity_translation:" + dtype,
+                     "N=%d extrapolate=%s: at the boundary of segments %d|%d the position of the first sample of the next "
+                     "segment is %.3g away from the cubic extrapolation of the last three samples (limit %.3g: h^3 K = %.3g)"
+                     % (N, extr, s_, s_ + 1, d3t[b, s_], lim_t[b, s_], h3 * k_tr[b, s_]))
 
     def simplify(self, case):
-        for Nn in sorted({1, 2, 4, 5, case["N"] // 2, case["N"] - 1}):
-            if 1 <= Nn < case["N"]:
+        for Nn in sorted({4, 5, 6, case["N"] // 2, case["N"] - 1}):
+            if 4 <= Nn < case["N"]:
                 yield dict(case, N=Nn)
         yield from _shape_simplify(case)
         if case["dtype"] != "float64":
@@ -469,18 +579,26 @@ def _build_traj(case, attempt):
             est_full[i] = R.mul("SE3", est_full[i], R.exp_np("se3", nz))
     # subsampling
     sub = case["sub"]
-    if sub == "same" or n == 3:
-        idx = np.arange(n)
-    elif sub == "prefix":
-        idx = np.arange(max(3, int(round(n * case["keep"]))))
+    if sub == "both" and n > 3 and case["stamps"] != "none":
+        # both trajectories lose frames independently: stamps of either one without a partner in the other, which the
+        # association threshold has to reject (the nearest stamp of the other trajectory is a whole frame away)
+        both = rs.choice(n, 3, replace=False)
+        kr, ke = rs.uniform(size=n) < case["keep"], rs.uniform(size=n) < (case["keep"] + 1.0) / 2
+        kr[both] = ke[both] = True
+        ridx, eidx = np.nonzero(kr)[0], np.nonzero(ke)[0]
     else:
-        keep = rs.uniform(size=n) < case["keep"]
-        keep[rs.choice(n, 3, replace=False)] = True
-        idx = np.nonzero(keep)[0]
-    if case["which"] == "ref" and case["stamps"] != "none":
-        ridx, eidx = idx, np.arange(n)
-    else:
-        ridx, eidx = np.arange(n), idx
+        if sub in ("same", "both") or n == 3:
+            idx = np.arange(n)
+        elif sub == "prefix":
+            idx = np.arange(max(3, int(round(n * case["keep"]))))
+        else:
+            keep = rs.uniform(size=n) < case["keep"]
+            keep[rs.choice(n, 3, replace=False)] = True
+            idx = np.nonzero(keep)[0]
+        if case["which"] == "ref" and case["stamps"] != "none":
+            ridx, eidx = idx, np.arange(n)
+        else:
+            ridx, eidx = np.arange(n), idx
     ref, est = full[ridx], est_full[eidx]
     # correspondences (positions in the passed arrays)
     if case["stamps"] == "none":
@@ -496,7 +614,8 @@ def _build_traj(case, attempt):
         dt, diff = case["dt"], case["dt"] * case["diff_frac"]
         ts = case["t0"] + dt * np.arange(n)
         rstamp = ts[ridx]
-        estamp = ts[eidx] + 0.24 * diff * rs.uniform(-1, 1, size=len(eidx)) - case["offset"]
+        # jitter below the association threshold: |jitter| < jit * diff, jit up to 0.95
+        estamp = ts[eidx] + case.get("jit", 0.24) * diff * rs.uniform(-1, 1, size=len(eidx)) - case["offset"]
     return {"ref": ref, "est": est, "rstamp": rstamp, "estamp": estamp, "corr": corr, "diff": diff,
             "rs": rs, "step": step, "ident": ident}
 
@@ -519,8 +638,10 @@ class Metrics(Sub):
             stamps = draw(st.sampled_from(("real", "real", "real", "none")))
             c = {"n": n, "metric": metric, "seed": draw(st.integers(0, 2 ** 31 - 1)),
                  "estep": draw(st.integers(-2, 2)), "stamps": stamps,
-                 "sub": draw(st.sampled_from(("same", "random", "random", "prefix") if stamps == "real" else ("same", "prefix"))),
+                 "sub": draw(st.sampled_from(("same", "random", "random", "prefix", "both", "both") if stamps == "real"
+                                             else ("same", "prefix"))),
                  "keep": draw(st.sampled_from((0.5, 0.8, 0.3))), "which": draw(st.sampled_from(("est", "est", "ref"))),
+                 "jit": draw(st.sampled_from((0.24, 0.6, 0.95, 0.95))),
                  "t0": draw(st.sampled_from((0.0, 17.25, 1311868163.87))), "dt": draw(st.sampled_from((0.1, 1.0, 0.0333))),
                  "diff_frac": draw(st.sampled_from((0.1, 0.25, 0.01))),
                  "offset": draw(st.sampled_from((0.0,) * 11 + (0.5, -1.25))) if stamps == "real" else 0.0,
@@ -555,6 +676,17 @@ class Metrics(Sub):
         rs, ref, est, M = tr["rs"], tr["ref"], tr["est"], len(corr)
         ident = tr["ident"]
         ref_m, est_m = ref[[a for a, _ in corr]], est[[b for _, b in corr]]
+        # brute-force association over all stamp pairs (documented rule: |t_ref - (t_est + offset)| < diff); it must give
+        # the constructed correspondences, with every decision clear of the threshold by more than the rounding of
+        # the stamps (the library may add the offset to either side)
+        rejects = False
+        if tr["rstamp"] is not None:
+            bf, amargin, uniq = T.associate(tr["rstamp"], tr["estamp"], tr["diff"], case["offset"])
+            ulp = float(np.spacing(max(float(np.abs(tr["rstamp"]).max()), float(np.abs(tr["estamp"]).max())) + abs(case["offset"])))
+            if amargin < 64 * ulp:
+                rec.discard_case("association decision within rounding of the threshold")
+            assert uniq and bf == corr, "generator: brute-force association differs from the constructed correspondences"
+            rejects = M < min(len(ref), len(est))       # stamps of the shorter trajectory without a partner
 
         # fixed transforms
         tmag = tr["step"] * 10.0 ** case["tes"]
@@ -577,37 +709,43 @@ class Metrics(Sub):
                 steps = np.linalg.norm(ppos[1:] - ppos[:-1], axis=1)
                 base = float(np.median(steps))
                 f0 = 0.6 + case["dfrac"] * max(0.0, (M - 1) / 3.0 - 0.6)
-                for mult in (1.0, 1.31, 0.77, 1.7, 0.55, 0.4, 0.3, 0.2, 2.3, 0.12):
+                for mult in (1.0, 1.31, 0.77, 1.7, 0.55, 0.4, 0.3, 0.2, 2.3, 0.12,
+                             1.15, 0.88, 1.5, 0.66, 2.0, 0.47, 0.25, 0.16, 2.7, 0.09, 3.2, 0.06):
                     cand = float(np.float32(base * f0 * mult))
                     prs, margin = T.pairs_distance(ppos, cand, cand * case["rtol"], allp)
                     if len(prs) >= 2 and margin >= 1e-6 * pos_scale:
-                        delta, ne = cand, len(prs)
+                        delta, pairs = cand, prs
                         break
-                if delta is None:        # too few poses for two stable distance pairs: pair by frames instead
+                if delta is None:
+                    # no step length gives two distance pairs that are clear of a tie (regularly with 3..5 associated
+                    # poses: the sequential rule can never select pose 0, so 3 poses give at most one pair): the case
+                    # is evaluated with frame pairing and counted as such (labels distance->frame and pair:frame:...)
                     assoc = "frame"
-                    rec.label("distance->frame")
+                    rec.label("distance->frame", "distance->frame:M%s" % (M if M <= 5 else ">5"))
                 else:
                     kw["rtol"] = case["rtol"]
             if assoc == "frame":
                 dmax = (M - 2) if allp else (M - 1) // 2
                 delta = float(1 + int(case["dfrac"] * 0.999999 * dmax))
-                ne = len(T.pairs_frames(M, delta, allp))
+                pairs = T.pairs_frames(M, delta, allp)
+            ne = len(pairs)
             assert ne >= 2
             kw.update(associate=assoc, delta=delta, all=allp, rpair=rpair)
         else:
-            ne = M
+            ne, pairs = M, None
 
         def tens(a):
             return None if a is None else torch.tensor(a, dtype=torch.float64)
 
-        def call(refa, esta, what):
+        def call(refa, esta, what, otype=otype):
+            kw_ = dict(kw, otype=otype)
             rst, est_ = tens(tr["rstamp"]), tens(tr["estamp"])
             rP, eP = _se3_tensor(refa, "float64"), _se3_tensor(esta, "float64")
             keep = [None if rst is None else rst.clone(), rP.tensor().clone(),
                     None if est_ is None else est_.clone(), eP.tensor().clone()]
             fn = pp.metric.ape if metric == "ape" else pp.metric.rpe
             with rec.sut("%s(%s)" % (metric, what)):
-                res = fn(rst, rP, est_, eP, **kw)
+                res = fn(rst, rP, est_, eP, **kw_)
             for nm, a, b in zip(("rstamp", "rpose", "estamp", "epose"), (rst, rP.tensor(), est_, eP.tensor()), keep):
                 if a is not None:
                     rec.check(torch.equal(a, b), "metrics:mutates_input:" + nm,
@@ -661,6 +799,8 @@ class Metrics(Sub):
                   "stamps:" + case["stamps"], "n>40" if case["n"] > 40 else "n<=40")
         if case["offset"] != 0.0:
             rec.label("offset!=0")
+        if tr["rstamp"] is not None:
+            rec.label("jitter<%.2f*diff" % case.get("jit", 0.24), "assoc:rejects_unmatched" if rejects else "assoc:all_of_shorter")
         if metric == "rpe":
             rec.label("pair:%s:%s:%s" % (kw["associate"], "all" if case["all"] else "seq", "rpair" if case["rpair"] else "epair"))
         difflen = len(ref) != len(est) and case["stamps"] == "real"
@@ -672,6 +812,56 @@ class Metrics(Sub):
         base = call(ref, est, "ref, est")
         if base is None:
             return
+
+        # --- a single statistic is the entry of the full output, which obeys the documented ordering --------
+        if otype != "All":
+            full = call(ref, est, "ref, est; otype='All'", otype="All")
+            if full is not None:
+                v, w = base[otype], full.get(otype)
+                rec.check(w is not None and abs(v - w) <= 1e-12 * max(abs(v), abs(w)) + 1e-300,
+                          "metrics:otype_consistency:%s:%s" % (metric, otype),
+                          "%s(otype=%r) returns %r but otype='All' reports %s=%r; config %s" % (metric, otype, v, otype, w, kw))
+
+        # --- values: the documented statistics of the documented errors over the brute-force pair set ------
+        # (associated pairs from T.associate, alignment by Umeyama / first pose, pairing rule of the documentation;
+        # every reading the documentation leaves open is accepted: matrix 2-norm or Frobenius norm, the translation
+        # error of rpe as |trans(Tr^-1 Te)| or as written, Median between the two middle samples, STD with n or n-1)
+        Mr, Me0 = T.mats_v(ref_m), T.mats_v(est_m)
+        Me2 = Me0
+        if align or scale:
+            s_u, R_u, t_u = T.umeyama(ep, rp, scale)[:3]
+            Me2 = Me0.copy()
+            Me2[:, :3, :3] = R_u @ Me0[:, :3, :3]
+            Me2[:, :3, 3] = s_u * Me0[:, :3, 3] @ R_u.T + t_u
+        elif origin:
+            Me2 = (Mr[0] @ T.inv_mats(Me0[0])) @ Me0
+        Sv = escale(float(np.abs(Me2[:, :3, 3]).max()))
+        atv = 1e-9 * Sv
+        best, passing = None, []
+        for rname, errs in T.metric_errors(Mr, Me2, metric, etype, pairs):
+            assert len(errs) == ne
+            stats, worst, wmsg = T.statistics(errs), 0.0, ""
+            for key, v in base.items():
+                lo, hi = stats[key]
+                big = max(abs(v), abs(lo), abs(hi))
+                if key == "SSE":
+                    tol = 2 * ne * (math.sqrt(big) + atv) * atv + 1e-8 * big
+                elif key == "STD":
+                    tol = 2 * atv + 1e-8 * big
+                else:
+                    tol = atv + 1e-8 * big
+                r = max(lo - v, v - hi, 0.0) / tol
+                if r > worst:
+                    worst, wmsg = r, "%s = %r, brute force %s (tol %.3g)" % (key, v, ("%r" % lo) if lo == hi else "in [%r, %r]" % (lo, hi), tol)
+            if worst <= 1.0:
+                passing.append(rname)
+            if best is None or worst < best[0]:
+                best = (worst, rname, wmsg)
+        _note(rec, "value/tol", best[0])
+        rec.label("value_ref" + (":" + passing[0] if (len(passing) == 1 and passing[0]) else ""))
+        rec.check(best[0] <= 1.0, "metrics:value:%s:%s:%s" % (metric, etype, cfgl.split(":")[2]),
+                  lambda: "%s over %d associated poses (%d error samples): %s under the closest documented reading%s; config %s"
+                  % (metric, M, ne, best[2], " (%s)" % best[1] if best[1] else "", kw))
 
         # --- identical trajectories: zero statistics ------------------------------------------------
         if ident:
@@ -710,7 +900,7 @@ class Metrics(Sub):
             if 3 <= nn < case["n"]:
                 yield dict(case, n=nn)
         for key, val in (("sub", "same"), ("stamps", "none"), ("offset", 0.0), ("disp", "none"), ("noise", "small"),
-                         ("otype", "All"), ("tkind", "rigid"), ("estep", 0), ("tes", 0), ("t0", 0.0), ("dt", 1.0),
+                         ("otype", "All"), ("tkind", "rigid"), ("estep", 0), ("tes", 0), ("t0", 0.0), ("dt", 1.0), ("jit", 0.24),
                          ("origin", False), ("align", False), ("scale", False)):
             if case.get(key) != val and not (key == "stamps" and case["sub"] not in ("same", "prefix")) \
                     and not (key == "noise" and case["noise"] == "identical"):
@@ -730,6 +920,8 @@ class Metrics(Sub):
             return False
         if not (case["dt"] >= 0.01 and 0.0 < case["diff_frac"] <= 0.25 and 0.0 < case["keep"] <= 1.0
                 and 0.0 <= case["t0"] <= 2e9 and abs(case["offset"]) <= 1e3 and case.get("rtol", 0.1) in (0.1, 0.3)):
+            return False
+        if not 0.0 <= case.get("jit", 0.24) <= 0.95 or case["sub"] not in ("same", "random", "prefix", "both"):
             return False
         return case["n"] >= 3 and -1.6 <= case["slog"] <= 1.6 and 0.0 <= case.get("dfrac", 0.0) <= 1.0
 
@@ -952,6 +1144,44 @@ def selftest():
     Mb = np.array([[5, 3, -3, 1], [1, 3, 3, -2], [0, 0, 0, 1]]) / 6.0
     for u in (0.0, 0.3, 1.0):
         assert abs((Mb @ np.array([1, u, u * u, u ** 3])).sum() - (1 + u)) < 1e-15
+    # third-derivative bounds of one spline segment against finite differences of the segment formula, and the
+    # third-difference inequality the continuity check relies on
+    lam = lambda u: Mb @ np.array([1, u, u * u, u ** 3])
+    for ang, tm in ((0.0, 1.0), (0.3, 2.0), (2.0, 0.5), (3.1, 1.0)):
+        xis = [T.rand_twist(rs, tm, ang) if ang > 0 else np.concatenate([tm * rs.randn(3), np.zeros(3)]) for _ in range(3)]
+        P0 = R.mat4("SE3", T.rand_pose(rs, 2.0))
+
+        def seg(u):
+            out = P0
+            for lj, xj in zip(lam(u), xis):
+                out = out @ R.mat4("SE3", R.exp_np("se3", lj * xj))
+            return out
+        th = max(np.linalg.norm(x[3:]) for x in xis)
+        ta = max(np.linalg.norm(x[:3]) for x in xis)
+        k_rot, k_tr = T.bspline_third_derivative_bounds(np.array(th), np.array(ta))
+        hh = 1.0 / 64
+        for u0 in (0.0, 0.4, 1.0 - 3 * hh):
+            d3 = seg(u0 + 3 * hh) - 3 * seg(u0 + 2 * hh) + 3 * seg(u0 + hh) - seg(u0)
+            assert np.linalg.norm(d3[:3, :3], 2) <= hh ** 3 * k_rot + 1e-13 and np.linalg.norm(d3[:3, 3]) <= hh ** 3 * k_tr + 1e-13
+        assert np.linalg.norm(T.twist_norm_bound(np.array(ang), np.linalg.norm(R.mat4("SE3", R.exp_np("se3", xis[0]))[:3, 3]))) \
+            >= np.linalg.norm(xis[0][:3]) * (1 - 1e-12)
+    th, dd = T.rel_geometry(np.stack([np.stack([P0, seg(0.5)])]))
+    assert abs(th[0, 0] - R.rot_angle(P0[:3, :3].T @ seg(0.5)[:3, :3])) < 1e-14 and abs(dd[0, 0] - np.linalg.norm(seg(0.5)[:3, 3] - P0[:3, 3])) < 1e-14
+    for e_ in (tu.EPS["float32"], EPS64):
+        nn = T.exp_translation_noise(np.array([0.0, e_, math.sqrt(e_), 1e-3, 1.0, 3.0]), e_)
+        assert nn.max() <= math.sqrt(2 * e_) * (1 + 1e-12) and nn[0] <= 40 * e_ and nn[-1] <= e_
+    # association and statistics of the metric reference
+    prs, mg, un = T.associate([0.0, 1.0, 2.0, 3.0], [0.52, 2.49, 3.8], 0.05, 0.5)
+    assert prs == [(1, 0), (3, 1)] and un and abs(mg - 0.03) < 1e-12
+    stt = T.statistics([3.0, 1.0, 2.0, 6.0])
+    assert stt["Median"] == (2.0, 3.0) and stt["Max"] == (6.0, 6.0) and stt["SSE"] == (50.0, 50.0) and stt["Mean"] == (3.0, 3.0)
+    assert abs(stt["STD"][0] - math.sqrt(3.5)) < 1e-15 and abs(stt["STD"][1] - math.sqrt(14.0 / 3)) < 1e-15
+    Ms = T.mats_v(np.stack([T.rand_pose(rs, 3.0) for _ in range(4)], 0))
+    assert np.allclose(T.inv_mats(Ms) @ Ms, np.eye(4), atol=1e-14)
+    (_, e1), (_, e2) = T.metric_errors(Ms, Ms[::-1].copy(), "ape", "pose")
+    Ed = np.linalg.inv(Ms[3]) @ Ms[0] - np.eye(4)
+    assert abs(e1[0] - np.linalg.norm(Ed)) < 1e-13 and abs(e2[0] - np.linalg.norm(Ed, 2)) < 1e-13
+    assert abs(T.metric_errors(Ms, Ms[::-1].copy(), "ape", "radian")[0][1][1] - R.rot_angle(Ms[2][:3, :3].T @ Ms[1][:3, :3])) < 1e-14
     # Umeyama: recovers a known similarity and is a minimiser
     src = rs.randn(9, 3)
     q = T.rand_unit_quat(rs)
